@@ -484,7 +484,11 @@ func (tb *TB) phi(p *ssa.Phi, e *Env) *Term {
 			alts = append(alts, t)
 		}
 	}
-	return mkPhi(alts)
+	r := mkPhi(alts)
+	if r.Op == "phi" && len(alts) > 1 && r.Val == nil {
+		r.Val = p // loop-carried and join phis keep their SSA value for loop idiom recognition
+	}
+	return r
 }
 
 func mkPhi(alts []*Term) *Term {
